@@ -5,6 +5,9 @@ body bytes handed to the application for request number `i`.
 -/
 import TornadoModel.C04.Lemmas
 import TornadoModel.C04.Monotone
+import TornadoModel.C04.RunLevel
+import TornadoModel.C04.GzProduced
+import TornadoModel.C04.Within
 namespace TornadoModel.C04
 open TornadoModel.C01 TornadoModel.C04.Spec
 
@@ -114,6 +117,276 @@ theorem gz_oversize_rejected (limit : Nat) (g : GSt) (comp out : Str) (tl : Nat)
 
 example : (gzRun 5 [([1, 2, 3], [([9, 9, 9], 1), ([9, 9, 9], 0)])] {}).rejected = true ∧
     (gzRun 5 [([1, 2, 3], [([9, 9, 9], 1), ([9, 9, 9], 0)])] {}).delivered = [[9, 9, 9]] := by decide
+
+/-! ## run level: the oversize message of a stream is refused, whatever precedes it and however it is segmented
+
+The lemmas above look at one resumption of the machine.  The theorems below are about whole runs: `pre` is any input that
+brings the connection to a message boundary (`phase = headers` — before the first request or after any number of served
+ones) or to a chunk-size line, `segs` is *any* segmentation of whatever the peer sends next (the offending message and
+anything behind it).  The conclusion is the exact trace: nothing but the refusal is appended to what the application and
+the peer had seen before, i.e. no `data` and no `fin` for the refused message, `closed` is in the trace, and the
+connection stays closed.  (`run_eq_feed`: a run over any segmentation is one drain of the joined buffer.) -/
+
+/-- header block: if the first `\n\r?\n` of what follows ends beyond `max_header_size`, or there is none within more than
+    `max_header_size` bytes, the connection is closed, no request is started and nothing is written -/
+theorem run_header_oversize_closed (cfg : Cfg) (pre segs : List Str)
+    (hp : (run cfg init pre).phase = .headers)
+    (hbig : (∃ k, findHeadEnd ((run cfg init pre).buf ++ segs.flatten) = some k ∧ k > cfg.maxHeader) ∨
+      (findHeadEnd ((run cfg init pre).buf ++ segs.flatten) = none ∧
+        ((run cfg init pre).buf ++ segs.flatten).length > cfg.maxHeader)) :
+    (run cfg init (pre ++ segs)).phase = .closed ∧
+      (run cfg init (pre ++ segs)).out = .closed :: (run cfg init pre).out := by
+  rw [run_append]
+  exact run_header_oversize_gen cfg _ segs (step_run_init cfg pre) hp hbig
+
+/-- in particular the first message of a connection -/
+theorem run_header_oversize_first (cfg : Cfg) (segs : List Str)
+    (hbig : (∃ k, findHeadEnd segs.flatten = some k ∧ k > cfg.maxHeader) ∨
+      (findHeadEnd segs.flatten = none ∧ segs.flatten.length > cfg.maxHeader)) :
+    (run cfg init segs).phase = .closed ∧ (run cfg init segs).out = [.closed] :=
+  run_header_oversize_closed cfg [] segs rfl (by simpa [run, init] using hbig)
+
+/-- any request whose framing `_read_body` refuses (`bodyKind … = none`) under the effective limit of *its* position in
+    the stream: the head is announced (`req`, `100 Continue` if asked for), then 400, close, `on_connection_close`;
+    no body byte is delivered and the request is never finished -/
+theorem run_body_refused (cfg : Cfg) (pre segs : List Str) (k : Nat) (m t v : Str) (h : Hdrs) (ka : Bool) (hostv : Str)
+    (hp : (run cfg init pre).phase = .headers)
+    (hk : findHeadEnd ((run cfg init pre).buf ++ segs.flatten) = some k) (hfit : k ≤ cfg.maxHeader)
+    (hparse : parseHead (((run cfg init pre).buf ++ segs.flatten).take k) = some ((m, t, v), h))
+    (hka : canKeepAlive cfg.noKeepAlive m v h = some ka) (hhost : hostCheck v h = some hostv)
+    (hbody : bodyKind (effLimit cfg (run cfg init pre).idx) h = none) :
+    (run cfg init (pre ++ segs)).phase = .closed ∧
+      (run cfg init (pre ++ segs)).out = [.connClose, .closed, .w400] ++
+        (if hGet h kExpect = some k100Continue then [Ev.w100] else []) ++
+          .req m t v (hAll h) :: (run cfg init pre).out := by
+  rw [run_append]
+  exact run_body_refused_gen cfg _ segs (step_run_init cfg pre) hp k m t v h ka hostv hk hfit hparse hka hhost hbody
+
+/-- Content-Length above `max_body_size` (or the override the delegate set for this request) -/
+theorem run_cl_oversize_refused (cfg : Cfg) (pre segs : List Str) (k : Nat) (m t v : Str) (h : Hdrs) (ka : Bool)
+    (hostv cv : Str) (n : Nat)
+    (hp : (run cfg init pre).phase = .headers)
+    (hk : findHeadEnd ((run cfg init pre).buf ++ segs.flatten) = some k) (hfit : k ≤ cfg.maxHeader)
+    (hparse : parseHead (((run cfg init pre).buf ++ segs.flatten).take k) = some ((m, t, v), h))
+    (hka : canKeepAlive cfg.noKeepAlive m v h = some ka) (hhost : hostCheck v h = some hostv)
+    (hcl : hGet h kContentLength = some cv) (hv : clPick cv = some cv) (hn : parseInt cv = some n)
+    (hbig : n > effLimit cfg (run cfg init pre).idx) :
+    (run cfg init (pre ++ segs)).phase = .closed ∧
+      (run cfg init (pre ++ segs)).out = [.connClose, .closed, .w400] ++
+        (if hGet h kExpect = some k100Continue then [Ev.w100] else []) ++
+          .req m t v (hAll h) :: (run cfg init pre).out :=
+  run_body_refused cfg pre segs k m t v h ka hostv hp hk hfit hparse hka hhost
+    (cl_oversize_rejected _ n h cv hcl hv hn hbig)
+
+/-- … so the refused request is handed no body byte, and the trace contains `closed` -/
+theorem run_cl_oversize_no_data (cfg : Cfg) (pre segs : List Str) (k : Nat) (m t v : Str) (h : Hdrs) (ka : Bool)
+    (hostv cv : Str) (n : Nat)
+    (hp : (run cfg init pre).phase = .headers)
+    (hk : findHeadEnd ((run cfg init pre).buf ++ segs.flatten) = some k) (hfit : k ≤ cfg.maxHeader)
+    (hparse : parseHead (((run cfg init pre).buf ++ segs.flatten).take k) = some ((m, t, v), h))
+    (hka : canKeepAlive cfg.noKeepAlive m v h = some ka) (hhost : hostCheck v h = some hostv)
+    (hcl : hGet h kContentLength = some cv) (hv : clPick cv = some cv) (hn : parseInt cv = some n)
+    (hbig : n > effLimit cfg (run cfg init pre).idx) :
+    dataLen (run cfg init pre).idx (run cfg init (pre ++ segs)).out = 0 ∧ Ev.closed ∈ (run cfg init (pre ++ segs)).out := by
+  have hr := (run_cl_oversize_refused cfg pre segs k m t v h ka hostv cv n hp hk hfit hparse hka hhost hcl hv hn hbig).2
+  have hf := (inv_run init pre (inv_init cfg)).1.future (run cfg init pre).idx (Nat.le_refl _)
+  rw [hr]
+  constructor
+  · split <;> simpa [dataLen] using hf
+  · simp
+
+/-- chunked: at a chunk-size line of any reachable run, a chunk whose declared size, added to the bytes already handed
+    over for this request, exceeds the request's effective limit is answered 400 and the connection closed — none of its
+    bytes (nor anything after it) is delivered, the request is never finished.  The hypothesis is in terms of the
+    *trace* (`dataLen`), not of the machine's counters: the invariant identifies them. -/
+theorem run_chunk_oversize_refused (cfg : Cfg) (pre segs : List Str) (total loc n : Nat)
+    (hp : (run cfg init pre).phase = .chunkSize total)
+    (hloc : findCrlf ((run cfg init pre).buf ++ segs.flatten) = some loc) (hshort : loc + 2 ≤ chunkLineMax)
+    (hsz : parseHexInt (((run cfg init pre).buf ++ segs.flatten).take loc) = some (n + 1))
+    (hbig : dataLen ((run cfg init pre).idx - 1) (run cfg init pre).out + (n + 1)
+      > effLimit cfg ((run cfg init pre).idx - 1)) :
+    (run cfg init (pre ++ segs)).phase = .closed ∧
+      (run cfg init (pre ++ segs)).out = .connClose :: .closed :: .w400 :: (run cfg init pre).out := by
+  obtain ⟨ht, hl⟩ := inv_chunkSize (inv_run init pre (inv_init cfg)) hp
+  rw [run_append]
+  exact run_chunk_refused_gen cfg _ segs (step_run_init cfg pre) total loc n hp hloc hshort hsz (by omega)
+
+/-- once closed, the connection hands nothing more to anyone: every later byte is ignored -/
+theorem run_closed_absorbs (cfg : Cfg) (pre segs : List Str) (hc : (run cfg init pre).phase = .closed) :
+    run cfg init (pre ++ segs) = run cfg init pre := by
+  rw [run_append, run_eq_feed cfg _ segs (step_run_init cfg pre)]
+  unfold feed
+  rw [app_of_closed _ hc, drain_of_closed hc]
+
+-- non-vacuity.  (1) max_header_size 21: a served 21-byte GET, then 22 bytes without a terminator in two segments
+example : (run { maxHeader := 21 } init [[71, 32, 47, 32, 72, 84, 84, 80, 47, 49, 46, 49, 10, 72, 111, 115, 116, 58, 120, 10, 10]]).phase
+    = .headers := by decide
+example : findHeadEnd ((run { maxHeader := 21 } init [[71, 32, 47, 32, 72, 84, 84, 80, 47, 49, 46, 49, 10, 72, 111, 115, 116, 58, 120, 10, 10]]).buf
+    ++ ([[65, 65, 65, 65, 65, 65, 65, 65, 65, 65, 65], [66, 66, 66, 66, 66, 66, 66, 66, 66, 66, 66]] : List Str).flatten) = none := by
+  decide
+-- (2) limit 3, second request of the connection declares Content-Length 4
+example : (run { maxBody := 3, overrides := [some 5] } init [fiveByteReq]).idx = 1 ∧
+    (run { maxBody := 3, overrides := [some 5] } init [fiveByteReq]).phase = .headers ∧
+    effLimit { maxBody := 3, overrides := [some 5] } 1 = 3 := by decide
+example : (run { maxBody := 3, overrides := [some 5] } init [fiveByteReq,
+    [80, 32, 47, 32, 72, 84, 84, 80, 47, 49, 46, 49, 10, 72, 111, 115, 116, 58, 120, 10, 67, 111, 110, 116, 101, 110, 116, 45,
+      76, 101, 110, 103, 116, 104, 58, 52, 10, 10, 97, 98, 99, 100]]).out.take 3 = [.connClose, .closed, .w400] := by decide
+-- (3) limit 3, chunked: "2\r\nab\r\n" is delivered, the next "2\r\ncd\r\n" would make 4
+example : (run { maxBody := 3 } init [[80, 32, 47, 32, 72, 84, 84, 80, 47, 49, 46, 49, 10, 72, 111, 115, 116, 58, 120, 10, 84, 114,
+    97, 110, 115, 102, 101, 114, 45, 69, 110, 99, 111, 100, 105, 110, 103, 58, 99, 104, 117, 110, 107, 101, 100, 10, 10],
+    [50, 13, 10, 97, 98, 13, 10]]).phase = .chunkSize 2 := by decide
+example : (run { maxBody := 3 } init [[80, 32, 47, 32, 72, 84, 84, 80, 47, 49, 46, 49, 10, 72, 111, 115, 116, 58, 120, 10, 84, 114,
+    97, 110, 115, 102, 101, 114, 45, 69, 110, 99, 111, 100, 105, 110, 103, 58, 99, 104, 117, 110, 107, 101, 100, 10, 10],
+    [50, 13, 10, 97, 98, 13, 10], [50, 13], [10, 99, 100, 13, 10]]).out.take 4
+      = [.connClose, .closed, .w400, .data 0 [97, 98]] := by decide
+
+/-! ### gzip, run level -/
+
+/-- after any sequence of `data_received` calls that did not raise, the first decompressor answer of the next call that
+    takes the decompressed size over the limit raises HTTPInputError; nothing of it — and nothing of any later call — is
+    handed to the wrapped delegate.  The hypothesis is in terms of what *was delivered* (`total … delivered`). -/
+theorem gz_run_oversize_refused (limit : Nat) (pre more : List (Str × List Ans)) (chunk out : Str) (tl : Nat)
+    (rest : List Ans) (hr : (gzRun limit pre {}).rejected = false) (hc : chunk ≠ []) (ho : out ≠ [])
+    (hbig : total (gzRun limit pre {}).delivered + out.length > limit) :
+    (gzRun limit (pre ++ (chunk, (out, tl) :: rest) :: more) {}).rejected = true ∧
+      (gzRun limit (pre ++ (chunk, (out, tl) :: rest) :: more) {}).delivered = (gzRun limit pre {}).delivered := by
+  have hsz := (ginv_run limit pre {} ⟨by simp [total], fun _ => by simp [total]⟩).2 hr
+  have h1 := gz_oversize_rejected limit (gzRun limit pre {}) chunk out tl rest hc ho (by omega)
+  rw [gzRun_append]
+  simp only [gzRun, hr, Bool.false_eq_true, if_false]
+  rw [gzRun_rejected limit more _ h1.1]
+  exact h1
+
+/-- for every decompressor behaviour: the size counter `_decompressed_body_size` going over the limit implies that the
+    body was refused (contrapositive: a body that was not refused decompressed to exactly what was delivered, ≤ limit) -/
+theorem gz_run_size_gt_rejected (limit : Nat) (calls : List (Str × List Ans))
+    (h : (gzRun limit calls {}).size > limit) : (gzRun limit calls {}).rejected = true := by
+  have hi := ginv_run limit calls {} ⟨by simp [total], fun _ => by simp [total]⟩
+  cases hr : (gzRun limit calls {}).rejected with
+  | true => rfl
+  | false => have := hi.2 hr; have := hi.1; omega
+
+example : (gzRun 5 [([1], [([9, 9, 9], 0)])] {}).rejected = false ∧
+    (gzRun 5 [([1], [([9, 9, 9], 0)]), ([2], [([8, 8, 8], 0)]), ([3], [([7], 0)])] {}).delivered = [[9, 9, 9]] := by decide
+
+/-- gzip, all positions: `gzProduced` (C04/GzProduced.lean) is the total output of the decompressor answers the delegate
+    consumed over the whole sequence of `data_received` calls — a function of the scripts, not of the delegate's counter
+    (`gzRun_size`: the counter equals it).  Whenever the body decompressed beyond the limit — at whichever call and
+    whichever iteration of the `while compressed_data` loop — HTTPInputError was raised, and what was handed over
+    stays within the limit. -/
+theorem gz_run_beyond_refused (limit : Nat) (calls : List (Str × List Ans))
+    (h : gzProduced limit calls {} > limit) :
+    (gzRun limit calls {}).rejected = true ∧ total (gzRun limit calls {}).delivered ≤ limit := by
+  refine ⟨gz_run_size_gt_rejected limit calls ?_, gz_delivered_le_limit limit calls⟩
+  rw [gzRun_size]; simpa using h
+
+/-- conversely a body that was not refused was handed over completely: delivered = produced -/
+theorem gz_run_accepted_whole (limit : Nat) (calls : List (Str × List Ans))
+    (h : (gzRun limit calls {}).rejected = false) :
+    total (gzRun limit calls {}).delivered = gzProduced limit calls {} := by
+  have hi := (ginv_run limit calls {} ⟨by simp [total], fun _ => by simp [total]⟩).2 h
+  rw [← hi, gzRun_size]; simp
+
+/-- … and the connection is closed: the wrapper's HTTPInputError reaches the `except HTTPInputError` arm of the connection
+    (`gzRefusal`, C04/Model.lean — compared with the implementation's events on every refusing gzip case): 400, close,
+    `on_connection_close`, whatever state `s` the connection machine was in -/
+theorem gz_beyond_conn_closed (limit : Nat) (calls : List (Str × List Ans)) (s : St)
+    (h : gzProduced limit calls {} > limit) :
+    (gzRefusal s (gzRun limit calls {})).phase = .closed ∧
+      (gzRefusal s (gzRun limit calls {})).out = .connClose :: .closed :: .w400 :: s.out := by
+  have hr := (gz_run_beyond_refused limit calls h).1
+  simp only [gzRefusal, hr, if_true]
+  exact ⟨rfl, reject400_out_true s⟩
+
+-- non-vacuity: limit 5; the second answer of the second call takes the output to 7
+example : gzProduced 5 [([1], [([9, 9, 9], 0)]), ([2, 3], [([8], 1), ([7, 7, 7], 0)]), ([4], [([6], 0)])] {} = 7 ∧
+    (gzRun 5 [([1], [([9, 9, 9], 0)]), ([2, 3], [([8], 1), ([7, 7, 7], 0)]), ([4], [([6], 0)])] {}).delivered
+      = [[9, 9, 9], [8]] := by decide
+
+/-! ### run level, within the limits: delivered whole, boundary included
+
+A request at any reachable message boundary whose header block ends within `max_header_size` (`k ≤ maxHeader`: equality
+included) and whose framing is accepted under the effective limit of its position with a non-empty fixed body
+(`cl_at_limit_ok`: Content-Length `n ≤ limit`, equality included), and which is completely contained in what follows, is
+announced, handed over whole in one piece, finished and answered; the run continues at the next boundary with exactly the
+remaining bytes.  (Persistent connection; a non-persistent one differs only by the final `closed`.) -/
+theorem run_cl_within_delivered (cfg : Cfg) (pre segs : List Str) (k n : Nat) (m t v : Str) (h : Hdrs) (hostv cv : Str)
+    (hp : (run cfg init pre).phase = .headers)
+    (hk : findHeadEnd ((run cfg init pre).buf ++ segs.flatten) = some k) (hfit : k ≤ cfg.maxHeader)
+    (hparse : parseHead (((run cfg init pre).buf ++ segs.flatten).take k) = some ((m, t, v), h))
+    (hka : canKeepAlive cfg.noKeepAlive m v h = some true) (hhost : hostCheck v h = some hostv)
+    (hcl : hGet h kContentLength = some cv) (hv : clPick cv = some cv) (hn : parseInt cv = some (n + 1))
+    (hte : hGet h kTransferEncoding = none)
+    (hle : n + 1 ≤ effLimit cfg (run cfg init pre).idx)
+    (hall : k + (n + 1) ≤ ((run cfg init pre).buf ++ segs.flatten).length) :
+    ∃ s2, run cfg init (pre ++ segs) = drain cfg s2 ∧ s2.phase = .headers ∧ s2.idx = (run cfg init pre).idx + 1 ∧
+      s2.buf = ((run cfg init pre).buf ++ segs.flatten).drop (k + (n + 1)) ∧
+      s2.out = [.w200, .fin, .data (run cfg init pre).idx
+          ((((run cfg init pre).buf ++ segs.flatten).drop k).take (n + 1))] ++
+        (if hGet h kExpect = some k100Continue then [Ev.w100] else []) ++
+          .req m t v (hAll h) :: (run cfg init pre).out := by
+  rw [run_append]
+  exact run_cl_within_gen cfg _ segs (step_run_init cfg pre) hp k n m t v h hostv hk hfit hparse hka hhost
+    (cl_at_limit_ok _ (n + 1) h cv hcl hv hn hle hte) hall
+
+/-- the same for a non-persistent request (`Connection: close`, HTTP/1.0, `no_keep_alive`): delivered whole, finished and
+    answered; then the server closes the connection, and that is the whole run -/
+theorem run_cl_within_delivered_close (cfg : Cfg) (pre segs : List Str) (k n : Nat) (m t v : Str) (h : Hdrs)
+    (hostv cv : Str)
+    (hp : (run cfg init pre).phase = .headers)
+    (hk : findHeadEnd ((run cfg init pre).buf ++ segs.flatten) = some k) (hfit : k ≤ cfg.maxHeader)
+    (hparse : parseHead (((run cfg init pre).buf ++ segs.flatten).take k) = some ((m, t, v), h))
+    (hka : canKeepAlive cfg.noKeepAlive m v h = some false) (hhost : hostCheck v h = some hostv)
+    (hcl : hGet h kContentLength = some cv) (hv : clPick cv = some cv) (hn : parseInt cv = some (n + 1))
+    (hte : hGet h kTransferEncoding = none)
+    (hle : n + 1 ≤ effLimit cfg (run cfg init pre).idx)
+    (hall : k + (n + 1) ≤ ((run cfg init pre).buf ++ segs.flatten).length) :
+    (run cfg init (pre ++ segs)).phase = .closed ∧
+      (run cfg init (pre ++ segs)).out = [.closed, .w200, .fin, .data (run cfg init pre).idx
+          ((((run cfg init pre).buf ++ segs.flatten).drop k).take (n + 1))] ++
+        (if hGet h kExpect = some k100Continue then [Ev.w100] else []) ++
+          .req m t v (hAll h) :: (run cfg init pre).out := by
+  rw [run_append]
+  exact run_cl_within_close_gen cfg _ segs (step_run_init cfg pre) hp k n m t v h hostv hk hfit hparse hka hhost
+    (cl_at_limit_ok _ (n + 1) h cv hcl hv hn hle hte) hall
+
+-- non-vacuity: `no_keep_alive`, limit 5, exactly 5 bytes
+example : (run { maxBody := 5, noKeepAlive := true } init [fiveByteReq]).out.take 4
+    = [.closed, .w200, .fin, .data 0 [1, 2, 3, 4, 5]] := by decide
+
+/-- chunked, within the limit (equality included): at a chunk-size line of any reachable run, a chunk whose declared
+    size, added to the bytes already handed over for this request (`dataLen` of the trace), stays within the request's
+    effective limit and which is completely buffered with its CRLF is handed over; the machine is at the next chunk-size
+    line with the rest of the bytes -/
+theorem run_chunk_within_delivered (cfg : Cfg) (pre segs : List Str) (total loc n : Nat) (rest : Str)
+    (hp : (run cfg init pre).phase = .chunkSize total)
+    (hloc : findCrlf ((run cfg init pre).buf ++ segs.flatten) = some loc) (hshort : loc + 2 ≤ chunkLineMax)
+    (hsz : parseHexInt (((run cfg init pre).buf ++ segs.flatten).take loc) = some (n + 1))
+    (hfit : dataLen ((run cfg init pre).idx - 1) (run cfg init pre).out + (n + 1)
+      ≤ effLimit cfg ((run cfg init pre).idx - 1))
+    (hcr : ((run cfg init pre).buf ++ segs.flatten).drop (loc + 2 + (n + 1)) = 13 :: 10 :: rest) :
+    ∃ s2, run cfg init (pre ++ segs) = drain cfg s2 ∧ s2.phase = .chunkSize (total + (n + 1)) ∧
+      s2.idx = (run cfg init pre).idx ∧ s2.buf = rest ∧
+      s2.out = pushEv (run cfg init pre).out (.data ((run cfg init pre).idx - 1)
+        ((((run cfg init pre).buf ++ segs.flatten).drop (loc + 2)).take (n + 1))) := by
+  obtain ⟨ht, hl⟩ := inv_chunkSize (inv_run init pre (inv_init cfg)) hp
+  rw [run_append]
+  obtain ⟨s2, h1, h2, h3, _, h5, h6⟩ :=
+    run_chunk_within_gen cfg _ segs (step_run_init cfg pre) total loc n rest hp hloc hshort hsz (by omega) hcr
+  exact ⟨s2, h1, h2, h3, h5, h6⟩
+
+-- non-vacuity: limit 4, chunks "ab" and "cd": the second one reaches the limit exactly and is delivered
+example : (run { maxBody := 4 } init [[80, 32, 47, 32, 72, 84, 84, 80, 47, 49, 46, 49, 10, 72, 111, 115, 116, 58, 120, 10, 84, 114,
+    97, 110, 115, 102, 101, 114, 45, 69, 110, 99, 111, 100, 105, 110, 103, 58, 99, 104, 117, 110, 107, 101, 100, 10, 10],
+    [50, 13, 10, 97, 98, 13, 10], [50, 13], [10, 99, 100, 13, 10]]).phase = .chunkSize 4 ∧
+  (run { maxBody := 4 } init [[80, 32, 47, 32, 72, 84, 84, 80, 47, 49, 46, 49, 10, 72, 111, 115, 116, 58, 120, 10, 84, 114,
+    97, 110, 115, 102, 101, 114, 45, 69, 110, 99, 111, 100, 105, 110, 103, 58, 99, 104, 117, 110, 107, 101, 100, 10, 10],
+    [50, 13, 10, 97, 98, 13, 10], [50, 13], [10, 99, 100, 13, 10]]).out.head? = some (.data 0 [97, 98, 99, 100]) := by decide
+
+-- non-vacuity: limit 3 with override 5 for the first request; exactly 5 bytes are delivered whole
+example : (run smallCfg init [fiveByteReq]).out
+    = [.w200, .fin, .data 0 [1, 2, 3, 4, 5], .req [80] [47] [72, 84, 84, 80, 47, 49, 46, 49]
+        [([72, 111, 115, 116], [120]), ([67, 111, 110, 116, 101, 110, 116, 45, 76, 101, 110, 103, 116, 104], [53])]] := by decide
 
 /-! ## the configured options are the limits — for every value, `0` included
 
